@@ -58,8 +58,16 @@ func boolVal(b bool) absVal     { return absVal{k: aBool, b: b} }
 func floatVal(f float64) absVal { return absVal{k: aFloat, f: f} }
 
 type symVal struct {
-	abs  absVal
-	expr string
+	abs   absVal
+	expr  string // rendered with memory locations by name (loads print the location)
+	vexpr string // value-based rendering: a forwarded load prints what was stored there ("" = same as expr)
+}
+
+func (s symVal) v() string {
+	if s.vexpr != "" {
+		return s.vexpr
+	}
+	return s.expr
 }
 
 type condTaken struct {
@@ -445,7 +453,7 @@ func (e *explorer) eval(st *exState, v ssa.Value) symVal {
 		case token.MUL: // load
 			loc := e.addrExpr(st, v.X)
 			if m, ok := st.mem[loc]; ok {
-				return symVal{abs: m.abs, expr: loc}
+				return symVal{abs: m.abs, expr: loc, vexpr: m.v()} // value last stored on this path
 			}
 			if st.dead[loc] {
 				return symVal{expr: loc}
@@ -460,7 +468,10 @@ func (e *explorer) eval(st *exState, v ssa.Value) symVal {
 			return e.atom(r)
 		case token.SUB:
 			x := e.val(st, v.X)
-			r := symVal{expr: "-" + x.expr}
+			r := symVal{expr: "-" + x.expr, vexpr: "-" + x.v()}
+			if strings.HasPrefix(x.v(), "-") {
+				r.vexpr = x.v()[1:]
+			}
 			switch x.abs.k {
 			case aInt:
 				r.abs = intVal(-x.abs.i)
@@ -559,6 +570,9 @@ func (e *explorer) evalCall(st *exState, v *ssa.Call, cr callRec) symVal {
 		name = "dyn:" + e.val(st, v.Call.Value).expr
 	}
 	r := symVal{expr: name + "(" + strings.Join(as, ", ") + ")"}
+	if len(cr.args) == 1 && cr.args[0].vexpr != "" {
+		r.vexpr = name + "(" + cr.args[0].v() + ")"
+	}
 	switch name {
 	case "math.Abs", "absInt":
 		if len(cr.args) == 1 {
